@@ -56,7 +56,9 @@ def file_runs(chk, triples, n):
             changed = any(k in bt and bt[k] != v for side in (l, r) for k, v in types(side).items())
             def tagset(nb):
                 return {t for c in nb.get("cells", []) for t in (c.get("metadata", {}).get("tags") or []) if isinstance(t, str)}
-            sig = ("merged-invalid:additional-properties:celltype-changed-on-one-side"
+            sig = ("merged-invalid:required-property:celltype-changed-on-both-sides-differently"
+                   if "is a required property" in errs[0] and _celltype_changed_differently(b, l, r)
+                   else "merged-invalid:additional-properties:celltype-changed-on-one-side"
                    if errs[0].startswith("Additional properties are not allowed") and changed
                    else "merged-invalid:duplicate-tag:same-tag-added-on-both-sides"
                    if "has non-unique elements" in errs[0] and (tagset(l) & tagset(r)) - tagset(b)
@@ -109,6 +111,14 @@ def _celltype_changed(ev):
     return False
 
 
+def _celltype_changed_differently(b, l, r):
+    """do the two sides convert one base cell (same id) to two different cell types?"""
+    def types(nb):
+        return {c.get("id"): c.get("cell_type") for c in nb.get("cells", []) if c.get("id") is not None}
+    bt, lt, rt = types(b), types(l), types(r)
+    return any(k in lt and k in rt and len({v, lt[k], rt[k]}) == 3 for k, v in bt.items())
+
+
 def _tag_added_on_both_sides(ev):
     """is there a cell tag absent from the base notebook that local and remote both introduce?"""
     from .c02 import safe_dec
@@ -140,6 +150,15 @@ def classify_valid(chk, ev, run_, clauses, info):
     if msg.startswith("Additional properties are not allowed") and _celltype_changed(ev):
         chk.violation("merged-invalid:additional-properties:celltype-changed-on-one-side",
                       "merged cell mixes keys of two cell types (strategy %s): %s" % (strat, msg), rep)
+        return
+    from .c02 import safe_dec
+    try:
+        plain = [safe_dec(ev[k]) for k in ("base", "local", "remote")]
+    except Exception:
+        plain = None
+    if plain and "is a required property" in msg and _celltype_changed_differently(*plain):
+        chk.violation("merged-invalid:required-property:celltype-changed-on-both-sides-differently",
+                      "merged cell lacks the fields its (base) cell type requires (strategy %s): %s" % (strat, msg), rep)
         return
     if "has non-unique elements" in msg and _tag_added_on_both_sides(ev):
         chk.violation("merged-invalid:duplicate-tag:same-tag-added-on-both-sides",
